@@ -21,6 +21,9 @@ fn base_config(r: &mut Rng, id: &str) -> SimConfig {
         cfg.operators.push(OperCfg { name: "ops".into(), password: "opspw".into(), mask: Some(["*!*@10.0.0.1", "*!*@10.0.0.*", "ann!*@*", "*!~u1@*"][r.below(4)].into()) });
     }
     cfg.max_joins = [None, None, Some(1), Some(2), Some(3)][r.below(5)];
+    if matches!(id, "C19" | "C03" | "C02") && r.chance(1, 2) {
+        cfg.max_connections = Some([1, 2, 3, 4, 5][r.below(5)]);
+    }
     let heavy_cfg = matches!(id, "C16" | "C07" | "C20" | "C11" | "C19" | "C03");
     if r.chance(1, if heavy_cfg { 2 } else { 4 }) {
         let mut ch = ChanCfg { name: "#pre".into(), ..Default::default() };
@@ -140,10 +143,17 @@ pub(crate) fn profile_for(id: &str) -> Profile {
         "C11" => p.w(&[(K::Oper, 10), (K::ModeUser, 14), (K::Kill, 6), (K::Wallops, 7), (K::Stats, 4), (K::Nick, 8), (K::Whois, 5), (K::Who, 3), (K::Userhost, 3), (K::Die, 1), (K::Register, 6), (K::Lusers, 2)]),
         "C15" => p.w(&[(K::Nick, 20), (K::Names, 6), (K::ModeQuery, 5), (K::Whois, 6), (K::Whowas, 5), (K::Wallops, 4), (K::Oper, 3), (K::ModeUser, 5), (K::Away, 4), (K::Invite, 6), (K::Privmsg, 8), (K::Join, 12), (K::ModeChan, 10), (K::Register, 5), (K::Kill, 2), (K::Userhost, 2)]),
         "C16" => p.w(&[(K::Join, 20), (K::Part, 14), (K::Kick, 8), (K::Quit, 4), (K::Eof, 3), (K::Reset, 3), (K::Kill, 3), (K::Oper, 3), (K::List, 6), (K::Lusers, 4), (K::ModeQuery, 6), (K::Names, 5), (K::Topic, 5), (K::TopicQuery, 3), (K::ModeChan, 10), (K::Register, 6)]),
-        "C19" => p.w(&[(K::Lusers, 10), (K::Ison, 8), (K::Userhost, 8), (K::ModeUser, 12), (K::Oper, 8), (K::Register, 10), (K::NewConn, 3), (K::Quit, 4), (K::Eof, 4), (K::Reset, 4), (K::Kill, 3), (K::Away, 4), (K::Nick, 5), (K::Join, 8), (K::Part, 5), (K::EofMidLine, 1), (K::HalfOpen, 1)]),
+        "C19" => p.w(&[(K::Lusers, 10), (K::Ison, 8), (K::Userhost, 8), (K::ModeUser, 12), (K::Oper, 8), (K::Register, 12), (K::NewConn, 8), (K::Quit, 4), (K::Eof, 4), (K::Reset, 4), (K::Kill, 3), (K::Away, 4), (K::Nick, 5), (K::Join, 8), (K::Part, 5), (K::EofMidLine, 1), (K::HalfOpen, 1)]),
         "C03" => {
-            let mut p = p.w(&[(K::Gated, 30), (K::CapStuff, 14), (K::Register, 14), (K::NewConn, 6), (K::Eof, 2), (K::Quit, 2), (K::Ison, 4), (K::Names, 4), (K::Lusers, 3)]);
+            let mut p = p.w(&[(K::Gated, 30), (K::CapStuff, 14), (K::Register, 10), (K::RegPiece, 20), (K::CompletionCollision, 4), (K::NewConn, 6), (K::Eof, 2), (K::Quit, 2), (K::Ison, 4), (K::Names, 4), (K::Lusers, 3)]);
             p.pre_register = 2;
+            p
+        }
+        "C02" => {
+            let mut p = p.w(&[(K::Register, 10), (K::RegPiece, 34), (K::CompletionCollision, 4), (K::Nick, 16), (K::Gated, 14), (K::NewConn, 6), (K::Eof, 6), (K::Reset, 5), (K::Quit, 3), (K::EofMidLine, 2), (K::CapStuff, 6), (K::Privmsg, 10), (K::Whois, 5), (K::Ison, 6), (K::Names, 3), (K::Join, 8), (K::Kill, 2), (K::Oper, 2)]);
+            p.nick_pool = 3;
+            p.pre_register = 2;
+            p.conns = (4, 7);
             p
         }
         "C06" => p.w(&[(K::Quit, 6), (K::Eof, 6), (K::Reset, 6), (K::EofMidLine, 3), (K::Kill, 4), (K::HalfOpen, 2), (K::Oper, 4), (K::Register, 8), (K::Whowas, 5), (K::Invite, 5), (K::ModeUser, 5), (K::Wallops, 3), (K::Lusers, 4), (K::Ison, 4), (K::ModeQuery, 5), (K::List, 3)]),
